@@ -486,3 +486,193 @@ def escape_real(text):
     if r is None:
         raise RxUnsupported("rxcheck E failed")
     return _unesc(r)
+
+
+# ---- regex -> DFA -> Rust matcher (regex mock for Engine K) ------------------------------------------------------------
+def _nfa(node, nfa):
+    """Thompson construction.  nfa: dict(state -> list of (ranges|None, target)).  Returns (start, end)."""
+    def new():
+        nfa.append([])
+        return len(nfa) - 1
+    k = node[0]
+    if k == "class":
+        s, e = new(), new()
+        nfa[s].append((tuple(node[1]), e))
+        return s, e
+    if k == "cat":
+        s = e = new()
+        for n in node[1]:
+            a, b = _nfa(n, nfa)
+            nfa[e].append((None, a))
+            e = b
+        return s, e
+    if k == "alt":
+        s, e = new(), new()
+        for n in node[1]:
+            a, b = _nfa(n, nfa)
+            nfa[s].append((None, a))
+            nfa[b].append((None, e))
+        return s, e
+    if k == "group":
+        return _nfa(node[1], nfa)
+    if k == "rep":
+        inner, lo, hi = node[1], node[2], node[3]
+        s = e = new()
+        for _ in range(lo):
+            a, b = _nfa(inner, nfa)
+            nfa[e].append((None, a))
+            e = b
+        if hi is None:
+            a, b = _nfa(inner, nfa)
+            nfa[e].append((None, a))
+            nfa[b].append((None, a))
+            f = new()
+            nfa[e].append((None, f))
+            nfa[b].append((None, f))
+            e = f
+        else:
+            f = new()
+            nfa[e].append((None, f))
+            for _ in range(hi - lo):
+                a, b = _nfa(inner, nfa)
+                nfa[e].append((None, a))
+                nfa[b].append((None, f))
+                e = b
+            e = f
+        return s, e
+    raise RxUnsupported("dfa: node %r" % (k,))
+
+
+def dfa(pat):
+    """Anchored-at-start DFA of a `^...` pattern (longest match).  Returns (classes, trans, accepting, start): classes is a list of
+    code-point range lists (the symbols), trans[state][symbol] -> state or -1."""
+    ast, _, _ = parse(pat)
+    s_anchor, e_anchor, core = split_anchors(ast)
+    if not s_anchor or has_inner_anchor(core):
+        raise RxUnsupported("dfa: pattern %r is not of the form ^... " % pat)
+    nfa = []
+    start, end = _nfa(core, nfa)
+    # symbols: partition of the code point space by all class boundaries
+    cuts = {0, MAXCP + 1}
+    for st in nfa:
+        for rs, _ in st:
+            if rs:
+                for lo, hi in rs:
+                    cuts.add(lo)
+                    cuts.add(hi + 1)
+    cuts = sorted(cuts)
+    atoms = [(cuts[i], cuts[i + 1] - 1) for i in range(len(cuts) - 1)]
+
+    def closure(states):
+        stack, seen = list(states), set(states)
+        while stack:
+            s = stack.pop()
+            for rs, t in nfa[s]:
+                if rs is None and t not in seen:
+                    seen.add(t)
+                    stack.append(t)
+        return frozenset(seen)
+    # group atoms with identical behaviour into symbols
+    def sig(atom):
+        return tuple(sorted((s, i) for s in range(len(nfa)) for i, (rs, t) in enumerate(nfa[s]) if rs and in_ranges(rs, atom[0])))
+    groups = {}
+    for a in atoms:
+        groups.setdefault(sig(a), []).append(a)
+    classes = [norm(v) for k, v in groups.items() if k]          # symbols some transition accepts
+    d0 = closure({start})
+    states, trans, todo = {d0: 0}, [], [d0]
+    while todo:
+        cur = todo.pop(0)
+        row = []
+        for cl in classes:
+            cp = cl[0][0]
+            nxt = closure({t for s in cur for rs, t in nfa[s] if rs and in_ranges(rs, cp)})
+            if not nxt:
+                row.append(-1)
+                continue
+            if nxt not in states:
+                states[nxt] = len(states)
+                todo.append(nxt)
+            row.append(states[nxt])
+        trans.append((states[cur], row))
+    trans = [r for _, r in sorted(trans)]
+    accepting = [end in st for st, _ in sorted(states.items(), key=lambda kv: kv[1])]
+    return classes, trans, accepting, e_anchor
+
+
+def dfa_rust(pat, fname):
+    """Rust fn `fname(s: &str) -> Option<usize>`: byte length of the longest match of the ^-anchored pattern at the start of s."""
+    classes, trans, acc, e_anchor = dfa(pat)
+    cls_arms = []
+    for i, cl in enumerate(classes):
+        cls_arms.append("        %s => %d," % (" | ".join("0x%X..=0x%X" % r if r[0] != r[1] else "0x%X" % r[0] for r in cl), i))
+    rows = ", ".join("[%s]" % ", ".join(str(x) for x in row) for row in trans)
+    return """
+fn %(f)s(s: &str) -> Option<usize> {
+    const T: [[i8; %(nc)d]; %(ns)d] = [%(rows)s];
+    const A: [bool; %(ns)d] = [%(acc)s];
+    let mut state: usize = 0;
+    let mut pos = 0;
+    let mut last = if A[0] { Some(0) } else { None };
+    for c in s.chars() {
+        let cls: usize = match c as u32 {
+%(arms)s
+            _ => return %(ret)s,
+        };
+        let n = T[state][cls];
+        if n < 0 { return %(ret)s; }
+        state = n as usize;
+        pos += c.len_utf8();
+        if A[state] { last = Some(pos); }
+    }
+    %(fin)s
+}
+""" % dict(f=fname, nc=len(classes), ns=len(trans), rows=rows, acc=", ".join("true" if a else "false" for a in acc),
+           arms="\n".join("    " + a for a in cls_arms), ret=("None" if e_anchor else "last"),
+           fin=("if A[state] { Some(pos) } else { None }" if e_anchor else "last"))
+
+
+REGEX_MOCK = r'''
+/// regex mock for Engine K: each Regex is a generated DFA matcher for its pattern text (leftmost-longest, ^-anchored);
+/// natively (replay) the real regex crate is used.
+#[cfg(kani)]
+#[allow(dead_code)]
+pub mod rxmock {
+    pub struct Regex { pub f: fn(&str) -> Option<usize> }
+    pub struct Match<'a> { s: &'a str }
+    impl<'a> Match<'a> { pub fn as_str(&self) -> &'a str { self.s } pub fn start(&self) -> usize { 0 } pub fn end(&self) -> usize { self.s.len() } }
+    impl Regex {
+        pub fn find<'a>(&self, s: &'a str) -> Option<Match<'a>> { match (self.f)(s) { Some(n) => Some(Match { s: &s[..n] }), None => None } }
+        pub fn is_match(&self, s: &str) -> bool { (self.f)(s).is_some() }
+    }
+}
+'''
+
+
+def mock_statics(named_patterns):
+    """named_patterns: list of (STATIC_NAME, pattern).  Under Kani: `static NAME: rxmock::Regex` backed by a generated DFA;
+    natively: lazy_static with the real regex crate and the same pattern text."""
+    from slicer import rust_str
+    out = [REGEX_MOCK]
+    for name, pat in named_patterns:
+        out.append("#[cfg(kani)]" + dfa_rust(pat, "dfa_" + name.lower()))
+        out.append("#[cfg(kani)]\nstatic %s: rxmock::Regex = rxmock::Regex { f: dfa_%s };" % (name, name.lower()))
+    out.append("#[cfg(not(kani))]\nlazy_static::lazy_static! {\n" + "\n".join(
+        "    static ref %s: regex::Regex = regex::Regex::new(%s).unwrap();" % (n, rust_str(p)) for n, p in named_patterns) + "\n}")
+    return "\n".join(out)
+
+
+def dfa_match_py(pat, text):
+    """Python evaluation of the generated DFA (for translator validation against the real crate)."""
+    classes, trans, acc, e_anchor = dfa(pat)
+    state, pos, last = 0, 0, (0 if acc[0] else None)
+    for ch in text:
+        cp = ord(ch)
+        cls = next((i for i, cl in enumerate(classes) if in_ranges(cl, cp)), None)
+        if cls is None or trans[state][cls] < 0:
+            return None if e_anchor else last
+        state = trans[state][cls]
+        pos += len(ch.encode("utf-8"))
+        if acc[state]:
+            last = pos
+    return (pos if acc[state] else None) if e_anchor else last
